@@ -8,8 +8,12 @@
 (*   api "rs"  ReplicatedShares::secret_share_for_local_evaluation /        *)
 (*             secret_share_for_parties / reveal (+ from_tuple)             *)
 (*   api "sv"  mpc::utils::share_vector (party tuples only)                 *)
-(*   api "ger" get_evaluator_result: plain input shared for a (t,t,t) graph *)
-(*             input, output revealed                                       *)
+(*   api "ger" get_evaluator_result: plain input, declared with type dt of  *)
+(*             the same layout as t (dt = t: the ordinary case; dt # t: an  *)
+(*             i32 for a graph taking 32 bits, ...), shared for a (t,t,t)   *)
+(*             graph input; "shares" = the triple the graph received        *)
+(*             (reveal_output = false), "reveal" = the revealed output      *)
+(*   api "<x>-err" / "<x>-panic": the call failed                           *)
 (* All values are trees of base-256 limb arrays; TLC recomputes the sums    *)
 (* modulo 2^w with module BigMod via the operators of module Sharing.       *)
 (***************************************************************************)
@@ -25,16 +29,23 @@ RunIdx(rr) == { <<si, ri>> : si \in 1..Len(rr.seeds), ri \in 1..10 }
 Runs(rr) == { ix \in UNION { { <<si, ri>> : ri \in 1..Len(rr.seeds[si].runs) } : si \in 1..Len(rr.seeds) } : TRUE }
 RunAt(rr, ix) == rr.seeds[ix[1]].runs[ix[2]]
 PRuns(rr) == { ix \in Runs(rr) : HasParties(RunAt(rr, ix)) }
+\* runs that expose a share triple
+SRuns(rr) == { ix \in Runs(rr) : HasParties(RunAt(rr, ix)) \/ RunAt(rr, ix).hasshares }
+\* the value of the record's type that the run shares
+Secret(ty, rn) == IF rn.api = "ger" THEN Reinterp(rn.dt, ty, rn.secret) ELSE rn.secret
 
 ShFacets(rr) == LET ty == rr.t IN
   << <<"api_result", \A ix \in Runs(rr) : RunAt(rr, ix).api \in {"tv", "rs", "sv", "ger", "sv-err"}>>,
-     <<"in_domain", \A ix \in PRuns(rr) : LET rn == RunAt(rr, ix) IN
+     \* a plain input is only offered with a declared type of the same layout
+     <<"ger_layout", \A ix \in Runs(rr) : LET rn == RunAt(rr, ix) IN
+          rn.api = "ger" => SameLayout(rn.dt, ty) /\ VHasType(rn.dt, rn.secret)>>,
+     <<"in_domain", \A ix \in SRuns(rr) : LET rn == RunAt(rr, ix) IN
           /\ \A ss \in 1..3 : VHasType(ty, SharesOf(rn)[ss])
-          /\ \A pp \in 1..3, ss \in 1..3 : VHasType(ty, rn.parties[pp][ss])>>,
+          /\ HasParties(rn) => \A pp \in 1..3, ss \in 1..3 : VHasType(ty, rn.parties[pp][ss])>>,
      \* the three shares sum to the secret modulo 2^w, component-wise
-     <<"reconstruct", \A ix \in PRuns(rr) : LET rn == RunAt(rr, ix) IN Reveal(ty, SharesOf(rn)) = rn.secret>>,
+     <<"reconstruct", \A ix \in SRuns(rr) : LET rn == RunAt(rr, ix) IN Reveal(ty, SharesOf(rn)) = Secret(ty, rn)>>,
      \* what the code's own reveal returned
-     <<"reveal", \A ix \in Runs(rr) : LET rn == RunAt(rr, ix) IN rn.reveal = rn.secret /\ rn.revt>>,
+     <<"reveal", \A ix \in Runs(rr) : LET rn == RunAt(rr, ix) IN rn.reveal = Secret(ty, rn) /\ rn.revt>>,
      \* party i holds share i in slot i and share i+1 in slot i+1
      <<"party_layout", \A ix \in PRuns(rr) : LET rn == RunAt(rr, ix) IN
           \A pp \in 0..2 : \A ss \in Genuine(pp) : rn.parties[pp + 1][ss + 1] = SharesOf(rn)[ss + 1]>>,
@@ -56,6 +67,15 @@ ShFacets(rr) == LET ty == rr.t IN
              LET rs == { ix \in PRuns(rr) : RunAt(rr, ix).api = ap } IN
              rs # {} => \E ix \in rs : LET rn == RunAt(rr, ix) IN
                            rn.parties[pp + 1][JunkSlot(pp) + 1] # SharesOf(rn)[JunkSlot(pp) + 1]>> >>
+\* sanity of the byte layout operators (5 = 00000101b; 0x0201 as two bytes; a round trip)
+ASSUME LET u8 == [k |-> "s", st |-> "u8"]
+           b8 == [k |-> "a", st |-> "b", sh |-> <<8>>]
+           u16 == [k |-> "s", st |-> "u16"]
+           a2 == [k |-> "a", st |-> "i8", sh |-> <<2>>] IN
+       /\ LeafFromBytes(b8, LeafBytes(u8, <<<<5>>>>)) = <<<<1>>, <<0>>, <<1>>, <<0>>, <<0>>, <<0>>, <<0>>, <<0>>>>
+       /\ LeafFromBytes(u8, LeafBytes(b8, <<<<1>>, <<0>>, <<1>>, <<0>>, <<0>>, <<0>>, <<0>>, <<1>>>>)) = <<<<133>>>>
+       /\ LeafFromBytes(a2, LeafBytes(u16, <<<<1, 2>>>>)) = <<<<1>>, <<2>>>>
+       /\ SameLayout(u8, b8) /\ ~SameLayout(u8, u16) /\ SameLayout(u16, a2)
 Failing(fs) == { fs[ii][1] : ii \in { jj \in 1..Len(fs) : ~fs[jj][2] } }
 
 Stride == 4
